@@ -71,21 +71,21 @@ theorem C06_flush_step (table : List (Nat × Nat × List FOp)) (s : BSt) (j : Na
 
 /-- **C06, other threads (ordering enabled).** Under the hypotheses of C05 (non-zero grace period, cache refreshed
     after `ts_now`, every accepted record within the grace premise): once the flag of a Flush statement `st` is
-    raised, every record accepted by any *registered* context (a context leaves the registry only after its thread
-    exited and it was drained) with a timestamp **strictly smaller** than `st`'s has been popped, i.e. written.
-    A log call that completed before `flush_log()` began has such a timestamp unless the two clock reads coincide
-    (ties are broken by cache position in `lowest` and are not claimed). -/
+    raised, **every record accepted by any context of any thread** with a timestamp **strictly smaller** than `st`'s
+    has been popped, i.e. written (and, by `C06_flush_step`, every active sink was flushed after that and before the
+    raise). A log call that completed before `flush_log()` began has such a timestamp unless the two clock reads
+    coincide (ties are broken by cache position in `lowest` and are not claimed). -/
 theorem C06_other_threads (s0 : BSt) (h0 : StartF s0) (hg : s0.cfg.grace ≠ 0) (hr : s0.cfg.refreshAfterSample = true)
     (ops : List Op) (hp : GracePremise (runOps s0 ops)) (i : Nat) (st : Stmt) (f : Nat)
     (hst : st ∈ ((runOps s0 ops).th i).accepted) (hk : st.kind = .flush f) (hf : f ∈ (runOps s0 ops).flags)
-    (k : Nat) (hkr : k ∈ (runOps s0 ops).registry) (r : Stmt) (hrk : r ∈ ((runOps s0 ops).th k).accepted)
+    (k : Nat) (r : Stmt) (hrk : r ∈ ((runOps s0 ops).th k).accepted)
     (hlt : r.ts < st.ts) : r ∈ ((runOps s0 ops).th k).popped := by
   have hF := (start_FI h0).runOps ops
   have hG := (start_GI h0.start hg hr).runOps ops
   obtain ⟨pre, post, hacc⟩ := List.append_of_mem hst
   obtain ⟨more, hpop⟩ := hF.flush_flag_popped hacc hk hf
   have hsp : st ∈ ((runOps s0 ops).th i).popped := by rw [hpop]; simp
-  exact earlier_popped hF hG hp hsp hkr hrk hlt
+  exact earlier_popped hF hG hp hsp hrk hlt
 
 /-- **The flush request is never dropped and never counted** (dropping *and* blocking queues). `enqFlow … 1 …` is the
     body of `flush_log` after the timestamp was read (first attempt, resumption after a stall, every retry). With
